@@ -25,6 +25,7 @@ def handle (j : Json) : M Json := do
   | "dhar_strategy" => opDharStrategy j
   | "enhanced_dhar" => opEnhancedDhar j
   | "greedy" => opGreedy j
+  | "cert" => opCert j
   | "winnable_hist" => opWinnableHist j
   | "dhar_batch" => opDharBatch j
   | "elements" => opElements j
